@@ -63,7 +63,8 @@ Value& OpNEGExpression::value(Context& ctx) const
     case Type::INTEGER:
       if (a1.isNull())
         return a1;
-      return LVAL1(Value(Integer(0 - *a1.integer())), a1);
+      /* wrap modulo 2^64: signed overflow is undefined */
+      return LVAL1(Value(Integer(uint64_t(0) - uint64_t(*a1.integer()))), a1);
     case Type::NUMERIC:
       if (a1.isNull())
         return a1;
